@@ -195,7 +195,11 @@ def stored_state(arr):
         if missing:
             out.append(None)
         else:
-            r = norm(arr.get_from_index(i))[1]
+            try:
+                r = norm(arr.get_from_index(i))[1]
+            except Exception as e:  # noqa: BLE001  (reported by the read table; the state key only records it)
+                out.append("EXC:" + type(e).__name__)
+                continue
             m = re.search(r"v\d+", r)
             tag = m.group(0) if m else r
             names.setdefault(tag, len(names))
